@@ -10,7 +10,7 @@ from . import dumpside as D
 from .shared import fn
 
 META = {
-    'claim_added': "Also decided: text-dependent conditions in emit_json are explored on both outcomes, helper methods are inlined, emitter state outside the stack is treated as unknown (an unmodelled rendering is an opaque token that cannot equal the reference); a changed set of container states is reported; the emitter's state is per instance. Round 3: the load-back clause - built-in scalar types are accepted on their exact tag only (R01.5). Round 6 (E14): caches on the code this property is about are invisible - no value that lives in a memo cell (dict / lazily filled attribute / lru_cache) is modified by the code it is handed to, the key of a cell contains every input its value depends on, no mutable parameter default is modified or handed out; given that, the program is analysed as if every lookup missed.",
+    'claim_added': "Also decided: text-dependent conditions in emit_json are explored on both outcomes, helper methods are inlined, emitter state outside the stack is treated as unknown (an unmodelled rendering is an opaque token that cannot equal the reference); a changed set of container states is reported; the emitter's state is per instance. Round 3: the load-back clause - built-in scalar types are accepted on their exact tag only (R01.5). Round 6 (E14): caches on the code this property is about are invisible - no value that lives in a memo cell (dict / lazily filled attribute / lru_cache) is modified by the code it is handed to, the key of a cell contains every input its value depends on, no mutable parameter default is modified or handed out; given that, the program is analysed as if every lookup missed. Round 12: R11.1 function-object-state - nothing that DumpsJsonFunction/DumpJsonFunction.__init__ builds is used by __call__ (a reused buffer keeps the half-written text of a failed dump).",
     'level': 'other',
     'technique': 'static: abstract interpretation of Dumper.emit_json over (event class x scalar tag x top-of-stack state) '
                  'into a finite transducer table compared with the canonical JSON writer written from RFC 8259; option flow '
